@@ -170,6 +170,8 @@ class Driver:
         self.t_err.start()
 
     def feed(self, js):
+        if not isinstance(js, str):
+            js = json.dumps(js)
         o = json.loads(js)
         key = (o["stream"], tuple(o["seg"]), o["text"])
         with self.lock:
